@@ -4,7 +4,12 @@
    CAS that load_cas_from_xmi returned for the bytes of that variant (harness/scen.py canon, own traversal).
    check_case: the observation equals (a) the canonical content of the model reader's result and (b) the declarative
    denotation of the variant document, both up to norm_xmi and restricted to the feature structures the observation
-   can see (those reachable from a view member). *)
+   can see (those reachable from a view member).
+   The cases the harness generates are of type lcase: a case together with the value of lenient= its bytes were loaded
+   with.  A lenient case may contain elements of types the schema does not define (with attributes and nested child
+   elements of their own); the model reader is run with the flag, the denotation is the one of the document without
+   those elements (XmiLoad.drop_unknown), and the premises are the ones of C05_load_lenient_total.  With lenient = false
+   everything is as for a plain case (check_case / premises, still used by CorrC17). *)
 From Cassis Require Import Base Offsets Heap Schema Canon Lex XmiDoc XmiLoad.
 Open Scope Z_scope.
 
@@ -22,14 +27,32 @@ Definition same_as_obs (c : case) (r : res ccas) : bool :=
   | Ok cc => ccas_eqb (norm_xmi (c_schema c) (restrict (map fst (cc_fs (c_obs c))) cc)) (norm_xmi (c_schema c) (c_obs c))
   | _ => false
   end.
-Definition model_content (c : case) : res ccas :=
-  do lc <- load_xmi (flt_of c) (c_schema c) false (c_doc c) ;; canon_loaded (c_schema c) lc.
-Definition denoted_content (c : case) : res ccas :=
-  res_map with_initial (denote_xmi (flt_of c) (c_schema c) (c_doc c)).
-(* C05_load_xmi_total on the case: a document satisfying both premises is loaded by the model *)
-Definition check_total (c : case) : bool :=
-  negb (reader_okb0 (flt_of c) (c_schema c) (c_doc c) && total_okb (c_schema c) (c_doc c))
-  || match load_xmi (flt_of c) (c_schema c) false (c_doc c) with Ok _ => true | _ => false end.
-Definition check_case (c : case) : bool := same_as_obs c (model_content c) && same_as_obs c (denoted_content c) && check_total c.
-(* premises of C05_load_xmi_total (documents with or without an _InitialView sofa) *)
-Definition premises (c : case) : bool := reader_okb0 (flt_of c) (c_schema c) (c_doc c) && total_okb (c_schema c) (c_doc c).
+(* the document the loaded CAS is the denotation of *)
+Definition said_doc (lenient : bool) (c : case) : xdoc := if lenient then drop_unknown (c_schema c) (c_doc c) else c_doc c.
+Definition model_content_l (lenient : bool) (c : case) : res ccas :=
+  do lc <- load_xmi (flt_of c) (c_schema c) lenient (c_doc c) ;; canon_loaded (c_schema c) lc.
+Definition denoted_content_l (lenient : bool) (c : case) : res ccas :=
+  res_map with_initial (denote_xmi (flt_of c) (c_schema c) (said_doc lenient c)).
+(* premises of C05_load_xmi_total (documents with or without an _InitialView sofa) / of C05_load_lenient_total *)
+Definition premises_l (lenient : bool) (c : case) : bool :=
+  (if lenient then dropped_ids_okb (c_schema c) (c_doc c) else true)
+  && reader_okb0 (flt_of c) (c_schema c) (said_doc lenient c) && total_okb (c_schema c) (said_doc lenient c).
+(* C05_load_xmi_total / C05_load_lenient_total on the case: a document satisfying the premises is loaded by the model *)
+Definition check_total_l (lenient : bool) (c : case) : bool :=
+  if premises_l lenient c
+  then match load_xmi (flt_of c) (c_schema c) lenient (c_doc c) with Ok _ => true | _ => false end
+  else true.
+Definition check_case_l (lenient : bool) (c : case) : bool :=
+  same_as_obs c (model_content_l lenient c) && same_as_obs c (denoted_content_l lenient c) && check_total_l lenient c.
+
+(* strict loading *)
+Definition model_content := model_content_l false.
+Definition denoted_content := denoted_content_l false.
+Definition check_total := check_total_l false.
+Definition check_case := check_case_l false.
+Definition premises := premises_l false.
+
+(* what the harness renders *)
+Record lcase := mkLCase { l_lenient : bool; l_case : case }.
+Definition check_lcase (c : lcase) : bool := check_case_l (l_lenient c) (l_case c).
+Definition premises_lcase (c : lcase) : bool := premises_l (l_lenient c) (l_case c).
